@@ -203,6 +203,9 @@ func (s *simscreen) drawCell(x, y int) int {
 		if nout == 0 || lbuf[0] == '\x1a' {
 
 			// skip combining
+			if simc.Bytes != nil {
+				continue
+			}
 
 			if subst, ok := s.fallback[r]; ok {
 				simc.Bytes = append(simc.Bytes,
